@@ -318,7 +318,7 @@ pub fn run(tier: &str) -> i32 {
         }
     }
     let rt_ok = Mutex::new(0u64);
-    let (rt_done, rt_to) = par_for(rt_jobs.len(), threads(), deadline, |i| {
+    let (rt_done, rt_to) = crate::par::par_for_core(rt_jobs.len(), rt_jobs.len(), threads(), deadline, |i| {
         let (ci, wl, rl) = rt_jobs[i];
         let (name, recs) = &cases[ci];
         let r = (|| -> Result<(), (String, String)> {
@@ -406,7 +406,8 @@ pub fn run(tier: &str) -> i32 {
     jobs.sort();
     jobs.dedup();
     let tally = Mutex::new(BTreeMap::<String, u64>::new());
-    let (dm_done, dm_to) = par_for(jobs.len(), threads(), deadline, |i| {
+    let required_core = jobs.iter().take_while(|j| j.0 < 2).count();
+    let (dm_done, dm_to) = crate::par::par_for_core(jobs.len(), required_core, threads(), deadline, |i| {
         let (ji, pos, nb) = jobs[i];
         let d = &djs[ji];
         let dir = fresh_dir();
@@ -469,7 +470,7 @@ pub fn run(tier: &str) -> i32 {
         "single-byte alterations inside the used part of the active journal; multi-byte damage is not enumerated".into(),
         "a recovery that fails (error or panic) is an allowed outcome of damage and is counted separately".into(),
     ];
-    let required_damage = jobs.iter().filter(|j| j.0 < 2).count();
+    let required_damage = required_core;
     if rt_to || dm_done < required_damage {
         o.machinery_errors.push(format!("time cap hit before the required core finished (round trip complete: {}, damage cases {dm_done}/{required_damage} required)", !rt_to));
     }
